@@ -29,7 +29,8 @@ BUDGET = {"quick": 30, "thorough": 480}
 ASSUMPTIONS = ["relations are checked between the objects' own results: absolute tolerance 1e-10 plus the documented 1e-9 "
                "per-state truncation of the sampler times the number of loss-mode patterns; for ratios (error rate, "
                "renormalised quick-sampler distribution) that allowance is divided by the accepted total",
-               "quick sampler with vacuum input and threshold detectors is a degenerate case and is not judged"]
+               "nothing injected on the visible modes (also with photon-carrying heralds, also with no visible mode at all) is an "
+               "ordinary configuration: all four objects must answer consistently"]
 
 TOL = 1e-10
 
